@@ -11,7 +11,10 @@ package main
 import (
 	"go/ast"
 	"go/token"
+	"os"
+	"path/filepath"
 	"sort"
+	"strings"
 )
 
 func genC04() {
@@ -75,6 +78,213 @@ func genC04() {
 		})
 	}
 	for _, k := range []string{"c04_lzfDecompress", "c04_lzfRoom", "c04_hash_chunk_cond"} {
+		if _, ok := facts[k]; !ok {
+			die("%s not found", k)
+		}
+	}
+	genC04Locals()
+}
+
+// session 5 — what makes "two replays of one RedisOutput share nothing" (Props/C04S.lean, later_replay_independent) the
+// right model of the code. Facts that survive renaming-free rewrites of the bodies (sets of names, one call expression):
+//   c04_sendRdb_nonlocal_channels / c04_sendRdb_unbound_makers   channels / parsers created in sendRdb that are NOT bound to a local
+//   c04_rdbPipe_source        the expression rdbPipe is defined from (a fresh rdb.ParseRdb over the reader handed in)
+//   c04_parseRdb_pipe         the expression ParseRdb's channel is defined from, inside ParseRdb
+//   c04_parseRdb_pkg_vars     package-level VARIABLES of pkg/rdb the body of ParseRdb mentions (shared state of the
+//                             leftover parser goroutine with anything else: only the constant-like RdbVersion)
+//   c04_parseRdb_sends        number of `pipe <- …` statements in ParseRdb and how many are inside the goroutine's closure
+func genC04Locals() {
+	fsO, fO := parseFile("syncer/output.go")
+	var send *ast.FuncDecl
+	for _, d := range fO.Decls {
+		if fn, ok := d.(*ast.FuncDecl); ok && fn.Name.Name == "sendRdb" && fn.Recv != nil {
+			send = fn
+		}
+	}
+	if send == nil {
+		die("sendRdb not found")
+	}
+	// every channel / parser the replay creates: `make(chan …)` and `rdb.ParseRdb(…)` inside sendRdb must be bound to a name
+	// DECLARED in sendRdb (`:=`, `var`, or appended to such a name) — anything else (a field of ro, a package variable) would
+	// be state a later replay shares with this one. Robust against renaming the locals.
+	declared := map[string]bool{}
+	ast.Inspect(send.Body, func(n ast.Node) bool {
+		switch x := n.(type) {
+		case *ast.AssignStmt:
+			if x.Tok == token.DEFINE {
+				for _, l := range x.Lhs {
+					if id, ok := l.(*ast.Ident); ok {
+						declared[id.Name] = true
+					}
+				}
+			}
+		case *ast.ValueSpec:
+			for _, id := range x.Names {
+				declared[id.Name] = true
+			}
+		}
+		return true
+	})
+	isMaker := func(e ast.Expr) bool {
+		ce, ok := e.(*ast.CallExpr)
+		if !ok {
+			return false
+		}
+		if id, ok := ce.Fun.(*ast.Ident); ok && id.Name == "make" && len(ce.Args) > 0 {
+			_, isChan := ce.Args[0].(*ast.ChanType)
+			return isChan
+		}
+		if se, ok := ce.Fun.(*ast.SelectorExpr); ok && se.Sel.Name == "ParseRdb" {
+			return true
+		}
+		return false
+	}
+	nonlocal := []string{}
+	makers := 0
+	ast.Inspect(send.Body, func(n ast.Node) bool {
+		as, ok := n.(*ast.AssignStmt)
+		if !ok {
+			return true
+		}
+		for i, r := range as.Rhs {
+			inner := r
+			if ce, ok := r.(*ast.CallExpr); ok { // x = append(x, make(chan …))
+				if id, ok := ce.Fun.(*ast.Ident); ok && id.Name == "append" && len(ce.Args) == 2 && isMaker(ce.Args[1]) {
+					inner = ce.Args[1]
+				}
+			}
+			if !isMaker(inner) || i >= len(as.Lhs) {
+				continue
+			}
+			makers++
+			lhs := as.Lhs[i]
+			for {
+				ix, ok := lhs.(*ast.IndexExpr) // pipes[i] = make(chan …): bound to the local slice
+				if !ok {
+					break
+				}
+				lhs = ix.X
+			}
+			id, ok := lhs.(*ast.Ident)
+			if !ok || !declared[id.Name] {
+				nonlocal = append(nonlocal, c17Print(fsO, as.Lhs[i]))
+			}
+			if se, ok := inner.(*ast.CallExpr).Fun.(*ast.SelectorExpr); ok && se.Sel.Name == "ParseRdb" {
+				facts["c04_rdbPipe_source"] = c17Print(fsO, inner)
+			}
+		}
+		return true
+	})
+	// a maker that is not the right-hand side of an assignment at all (passed along, stored in a literal) is counted too
+	total := 0
+	ast.Inspect(send.Body, func(n ast.Node) bool {
+		if e, ok := n.(ast.Expr); ok && isMaker(e) {
+			total++
+		}
+		return true
+	})
+	facts["c04_sendRdb_nonlocal_channels"] = nonlocal
+	facts["c04_sendRdb_unbound_makers"] = total - makers
+
+	fsR, fR := parseFile("pkg/rdb/rdb.go")
+	var parse *ast.FuncDecl
+	for _, d := range fR.Decls {
+		if fn, ok := d.(*ast.FuncDecl); ok && fn.Name.Name == "ParseRdb" && fn.Recv == nil {
+			parse = fn
+		}
+	}
+	if parse == nil {
+		die("ParseRdb not found")
+	}
+	// package-level variables of pkg/rdb (default build, no tests)
+	pkgVars := map[string]bool{}
+	ents, err := os.ReadDir(filepath.Join(*repo, "pkg/rdb"))
+	if err != nil {
+		die("pkg/rdb: %v", err)
+	}
+	for _, e := range ents {
+		if e.IsDir() || !strings.HasSuffix(e.Name(), ".go") || strings.HasSuffix(e.Name(), "_test.go") {
+			continue
+		}
+		_, ff := parseFile("pkg/rdb/" + e.Name())
+		for _, d := range ff.Decls {
+			if gd, ok := d.(*ast.GenDecl); ok && gd.Tok == token.VAR {
+				for _, sp := range gd.Specs {
+					if vs, ok := sp.(*ast.ValueSpec); ok {
+						for _, id := range vs.Names {
+							pkgVars[id.Name] = true
+						}
+					}
+				}
+			}
+		}
+	}
+	used := map[string]bool{}
+	sends, inClosure := 0, 0
+	pipeName := ""
+	for _, st := range parse.Body.List {
+		if as, ok := st.(*ast.AssignStmt); ok && as.Tok == token.DEFINE && len(as.Lhs) == 1 && len(as.Rhs) == 1 && isMaker(as.Rhs[0]) {
+			if id, ok := as.Lhs[0].(*ast.Ident); ok {
+				pipeName = id.Name
+				facts["c04_parseRdb_pipe"] = c17Print(fsR, as.Rhs[0])
+			}
+		}
+	}
+	var walk func(n ast.Node, closure bool)
+	walk = func(n ast.Node, closure bool) {
+		ast.Inspect(n, func(m ast.Node) bool {
+			switch x := m.(type) {
+			case *ast.FuncLit:
+				if m != n {
+					walk(x.Body, true)
+					return false
+				}
+			case *ast.SelectorExpr:
+				walk(x.X, closure)
+				return false
+			case *ast.Ident:
+				if pkgVars[x.Name] {
+					used[x.Name] = true
+				}
+			case *ast.SendStmt:
+				if id, ok := x.Chan.(*ast.Ident); ok && id.Name == pipeName {
+					sends++
+					if closure {
+						inClosure++
+					}
+				}
+			}
+			return true
+		})
+	}
+	walk(parse.Body, false)
+	var uv []string
+	for k := range used {
+		uv = append(uv, k)
+	}
+	sort.Strings(uv)
+	facts["c04_parseRdb_pkg_vars"] = uv
+	facts["c04_parseRdb_sends"] = []int{sends, inClosure}
+	// every run of the input obtains its reader anew: run() defines `reader` from readChannel, readChannel from channel.NewReader
+	_, fI := parseFile("syncer/input.go")
+	fsI, _ := parseFile("syncer/input.go")
+	fresh := map[string]string{}
+	for _, d := range fI.Decls {
+		fn, ok := d.(*ast.FuncDecl)
+		if !ok || fn.Recv == nil || (fn.Name.Name != "run" && fn.Name.Name != "readChannel") {
+			continue
+		}
+		ast.Inspect(fn.Body, func(n ast.Node) bool {
+			if as, ok := n.(*ast.AssignStmt); ok && as.Tok == token.DEFINE && len(as.Lhs) >= 1 && len(as.Rhs) == 1 {
+				if id, ok := as.Lhs[0].(*ast.Ident); ok && id.Name == "reader" {
+					fresh[fn.Name.Name] = c17Print(fsI, as.Rhs[0])
+				}
+			}
+			return true
+		})
+	}
+	facts["c04_reader_per_run"] = fresh
+	for _, k := range []string{"c04_rdbPipe_source", "c04_parseRdb_pipe"} {
 		if _, ok := facts[k]; !ok {
 			die("%s not found", k)
 		}
